@@ -50,7 +50,7 @@ func build(tier string) []*vkit.Scenario {
 	ntD := func(m map[string]int) bool { return m["messages_on_wire"] > 0 && m["interleave_opportunities"] > 0 }
 	for _, m := range ekit.Modes {
 		for _, k := range []int{1 << 20, 5} {
-			a := acfg{mode: m, exec: "go", writers: 2, f: 2, k: k, p: 1}
+			a := acfg{mode: m, exec: "go", writers: 2, f: 2, k: k, p: 1, end: "none"}
 			if k == 5 {
 				a.k = 16 // the 101 response and the frames go out in several partial writes
 			}
@@ -66,6 +66,14 @@ func build(tier string) []*vkit.Scenario {
 			}
 		}
 	}
+	for _, m := range ekit.Modes {
+		a := acfg{mode: m, exec: "go", writers: 2, f: 2, k: 1 << 20, p: 1, end: "tclose"}
+		if thorough {
+			a.p = 2
+		}
+		add(a.name(), orderBody(a), a.p, func(m map[string]int) bool { return m["messages_on_wire"] > 0 })
+	}
+
 	// ---- (b) direct mode
 	ntWire := func(m map[string]int) bool { return m["messages_on_wire"] > 0 && m["interleave_opportunities"] > 0 }
 	for _, d := range []dcfg{
@@ -145,15 +153,17 @@ func build(tier string) []*vkit.Scenario {
 				{msgs: 2, bursts: []int{2}, end: "hclose", closeAt: 1, echo: true},
 				{msgs: 2, bursts: []int{1, 1}, nowait: true, end: "fin"},
 				{msgs: 0, bursts: nil, nowait: true, end: "fin"},
+				{msgs: 2, bursts: []int{2}, end: "oclose"},
+				{msgs: 2, bursts: []int{2}, end: "fin+tclose"},
 			}
 			for bi, a := range base {
 				if !thorough {
 					// quick: the goroutine-per-call executor carries everything in LT; the other modes
 					// and executors a subset
-					if m != ekit.LT && bi != 0 && bi != 5 && bi != 7 && bi != 10 {
+					if m != ekit.LT && bi != 0 && bi != 5 && bi != 7 && bi != 10 && bi != 12 {
 						continue
 					}
-					if e == "pool" && bi != 1 && bi != 6 && bi != 7 {
+					if e == "pool" && bi != 1 && bi != 6 && bi != 7 && !(bi == 13 && m == ekit.LT) {
 						continue
 					}
 					if e == "inline" && bi != 0 && bi != 5 && bi != 7 && bi != 11 {
@@ -167,14 +177,14 @@ func build(tier string) []*vkit.Scenario {
 					if thorough {
 						a.p = 2
 					}
-				case a.end == "tclose" && !(m == ekit.LT && e == "go"):
+				case strings.Contains(a.end, "tclose") && !(m == ekit.LT && e == "go" && a.end == "tclose"):
 					a.p = 1
 					if thorough {
 						a.p = 2
 					}
 				default:
 					a.p = 2
-					if thorough && a.end != "tclose" {
+					if thorough && !strings.Contains(a.end, "tclose") {
 						a.p = 3
 					}
 				}
